@@ -143,7 +143,7 @@ def sub_cases(rng, c, r):
         for prev in (False, True):
             out.append(({"pattern": pat, "code": c["code"], "origin": c["origin"].split(":")[0] + ":sub",
                          "setup": c["setup"], "api": "sub", "spelling": c.get("spelling", "plain"),
-                         "use_previous": prev, "parent_pattern": c["pattern"]},
+                         "use_previous": prev, "parent_pattern": c["pattern"], "parent_key": key},
                         dict(api="sub", anchor=anchor, parent=parent, key=key, use_previous=prev)))
     return out
 
@@ -325,40 +325,61 @@ def embed_verdicts(driver, run):
     return [x == "1" for x in a[1:]]
 
 
+def rerun(case):
+    """re-execute a stored case dict on the real code"""
+    prog = cc.Program(case["code"], case.get("setup", "code"))
+    if case.get("api") == "sub":
+        parent = cc.RealRun(case["parent_pattern"], prog)
+        key = case["parent_key"]
+        return cc.RealRun(case["pattern"], prog, api="sub", anchor=parent.matches[0]["exps"][key],
+                          parent=parent.raw[0], key=key, use_previous=case.get("use_previous", False))
+    return cc.RealRun(case["pattern"], prog, api=case.get("api", "find_matches"))
+
+
+CASE_KEYS = ("pattern", "code", "setup", "api", "use_previous", "parent_pattern", "parent_key")
+
+
 def search_c10(rng, tier, broken, corr):
     from common import Driver
     driver = Driver("driver_c10")
     runs = STATE.get("runs", [])
     info = {"evaluations": 0, "distinct_nontrivial": 0,
             "rule": "oracle = Lean checkMatch (kind/content/child-of-partner/order/placeholder bindings) evaluated by the "
-                    "driver on every AstMap returned by the real find_matches; non-trivial = a real match",
-            "samples": []}
+                    "driver on every AstMap returned by the real find_matches / find_match / CaitNode.find_matches "
+                    "(sub-matches with the parent's bindings included); non-trivial = a real match",
+            "samples": [], "skips": STATE.get("skips", {})}
     failures = []
     if not driver.available:
         info["skipped"] = "driver missing"
         return failures, info
     owners = [(c, r) for c, r in runs if r.exc is None and r.matches]
     answers = driver.ask([r.embed_request() for _, r in owners])
-    info["distinct_nontrivial"] = len({(c["pattern"], c["code"]) for c, _ in owners})
+    info["distinct_nontrivial"] = len({(c["pattern"], c["code"], r.api, r.anchor, r.use_previous) for c, r in owners})
     bad = {}
     for (c, r), a in zip(owners, answers):
         toks = a.split(" ")
         info["evaluations"] += len(r.matches)
         if toks[0] != "ok" or len(toks) != 1 + len(r.matches) or "0" in toks[1:]:
-            i = toks[1:].index("0") if "0" in toks[1:] else 0
-            bad.setdefault((c["pattern"], c["code"]), (c, r, i, a))
-    for (pattern, code), (c, r, i, a) in list(bad.items())[:5]:
-        def still(p, s):
-            rr = cc.RealRun(p, s)
-            return any(not v for v in embed_verdicts(driver, rr))
-        p2, s2 = shrink(pattern, code, still)
-        rr = cc.RealRun(p2, s2)
+            bad.setdefault((c["pattern"], c["code"], r.api, r.use_previous), (c, r, a))
+    for _, (c, r, a) in list(bad.items())[:3]:
+        case = {k: c[k] for k in CASE_KEYS if k in c}
+        if r.api != "sub":
+            def still(p, s):
+                rr = rerun(dict(case, pattern=p, code=s))
+                return any(not v for v in embed_verdicts(driver, rr))
+            p2, s2 = shrink(case["pattern"], case["code"], still)
+            case = dict(case, pattern=p2, code=s2)
+        rr = rerun(case)
         vs = embed_verdicts(driver, rr)
         idx = vs.index(False) if False in vs else 0
-        failures.append(Failure({"oracle": "embedding", "pattern": p2, "code": s2},
-                                "find_matches(%r) on %r returns a match that is not an embedding" % (p2, s2),
-                                {"pattern": p2, "code": s2, "match_index": idx, "original": {"pattern": pattern, "code": code},
-                                 "match": cc.show_match(rr.matches[idx]) if rr.matches else None}))
+        sig = {"oracle": "embedding", "pattern": case["pattern"], "code": case["code"]}
+        for k in ("api", "use_previous", "parent_pattern"):
+            if case.get(k) not in (None, "find_matches", False):
+                sig[k] = case[k]
+        failures.append(Failure(sig, "%s(%r) on %r returns a match that is not an embedding" % (
+            "CaitNode.find_matches" if rr.api != "find_matches" else "find_matches", case["pattern"], case["code"]),
+            dict(case, match_index=idx, original={"pattern": c["pattern"], "code": c["code"]},
+                 match=cc.show_match(rr.embed_matches()[idx]) if rr.matches else None)))
     if owners:
         c, r = owners[0]
         info["samples"].append({"pattern": c["pattern"], "code": c["code"][:120], "match": cc.show_match(r.matches[0])})
@@ -416,18 +437,22 @@ def replay(payload):
     rp = payload.get("replay") or {}
     if not rp and payload.get("disagreements"):
         rp = payload["disagreements"][0]["case"]
-    if not rp:
+    if not rp or "pattern" not in rp:
         print(json.dumps(payload, indent=1)[:3000])
         return 0
-    pattern, code = rp["pattern"], rp["code"]
-    print("pattern:\n" + pattern)
-    print("program:\n" + code)
-    r = cc.RealRun(pattern, code)
+    case = {k: rp[k] for k in CASE_KEYS if k in rp}
+    for k, v in case.items():
+        print("%s: %s" % (k, v if k not in ("pattern", "code", "parent_pattern") else "\n" + str(v)))
+    r = rerun(case)
     print("real  :", "raises " + r.exc if r.exc else json.dumps([cc.show_match(m) for m in r.matches], default=str))
     d = Driver("driver_c10")
     if d.available:
-        model = cc.parse_model_matches(d.ask([r.request()])[0])
-        print("model :", json.dumps([cc.show_match(m) for m in model], default=str) if not isinstance(model, str) else model)
+        if r.compare_model:
+            model = cc.parse_model_matches(d.ask([r.request()])[0])
+            print("model :", json.dumps([cc.show_match(m) for m in model], default=str) if not isinstance(model, str) else model)
         if r.exc is None:
             print("checkMatch on the real matches:", embed_verdicts(d, r))
+    dd = rp.get("derived")
+    if dd:
+        print("derivation:", dd)
     return 0
